@@ -18,8 +18,14 @@ VERSION = "1.1"
 
 
 def F(x):
-    if isinstance(x, bool):
+    import numpy as np
+
+    if isinstance(x, (bool, np.bool_)):
         return Fraction(int(x))
+    if isinstance(x, np.integer):
+        return Fraction(int(x))
+    if isinstance(x, np.floating):
+        return Fraction(float(x))
     return Fraction(x)
 
 
@@ -34,6 +40,8 @@ def qval(q, rec):
     f = q["f"]
     if f == "xy":
         return (rec["x"], rec["y"])
+    if f == "xyc":
+        return (rec["x"], rec["y"], rec["c"])
     return rec[f]
 
 
